@@ -315,19 +315,24 @@ type typeGuesser struct {
 }
 
 func (g *typeGuesser) Guess() (SchemaType, error) {
-	m := map[SchemaType]func() bool{
-		SchemaTypeString:  g.isString,
-		SchemaTypeInteger: g.isInteger,
-		SchemaTypeFloat:   g.isFloat,
-		SchemaTypeBoolean: g.isBoolean,
-		SchemaTypeObject:  g.isObject,
-		SchemaTypeArray:   g.isArray,
-		SchemaTypeNull:    g.isNull,
+	// The order matters and must be stable: a quoted text is a string even if it
+	// contains a dot or looks like a number.
+	guessers := []struct {
+		t  SchemaType
+		fn func() bool
+	}{
+		{SchemaTypeString, g.isString},
+		{SchemaTypeBoolean, g.isBoolean},
+		{SchemaTypeNull, g.isNull},
+		{SchemaTypeObject, g.isObject},
+		{SchemaTypeArray, g.isArray},
+		{SchemaTypeInteger, g.isInteger},
+		{SchemaTypeFloat, g.isFloat},
 	}
 
-	for t, fn := range m {
-		if fn() {
-			return t, nil
+	for _, x := range guessers {
+		if x.fn() {
+			return x.t, nil
 		}
 	}
 	return SchemaTypeUndefined, errs.ErrUnableToDetermineTheTypeOfJsonValue.F()
